@@ -121,6 +121,10 @@ fn run(ctx: &Ctx) -> Run {
                     let _ = cell_polygon(twin);
                     let _ = centre_unit(encode(twin));
                     run.count("stratified.primed_with_twin");
+                } else if i % 4 == 2 {
+                    // a relative, or the revisit pattern (parent, others, parent), immediately before
+                    prime_history(&mut rng, MCell::new(res, (k / 5) as u8, (k % 5) as u8, s));
+                    run.count("stratified.primed_with_relative_or_revisit");
                 }
                 check_parent(run, MCell::new(res, (k / 5) as u8, (k % 5) as u8, s), "stratified");
                 run.count(&format!("stratified.res{res:02}"));
